@@ -322,7 +322,7 @@ def _call_bool(I, fn, args):
     return bool(I.truthy(r))
 
 
-def cut_loop(I, node, env, spec):
+def cut_loop(I, node, env, spec, it=None):
     from .interp import BreakSig, ContinueSig
 
     ctx = I.ctx
@@ -338,7 +338,7 @@ def cut_loop(I, node, env, spec):
     is_for = isinstance(node, ast.For)
     seq = None
     if is_for:
-        seq = I.eval(node.iter, env)
+        seq = it if it is not None else I.eval(node.iter, env)
         from .values import LazyDictV
 
         from .values import LazySetV
